@@ -502,6 +502,10 @@ where
                     self.complete(returns)?;
                     Ok(CoroutineState::Complete(returns))
                 } else {
+                    // The body panicked or was ended by the trap handler, so it never
+                    // reached its own `clean_current`: forget its suspender here, otherwise
+                    // this thread keeps a dangling "current" suspender.
+                    Suspender::<Yield, Param>::clean_current();
                     let message = result.unwrap_err();
                     self.error(message)?;
                     Ok(CoroutineState::Error(message))
